@@ -16,6 +16,8 @@ func init() {
 }
 
 func runC16(c *Ctx) {
+	defer checkSearchFlags(c, "C16-R1", "internal/checks.SeriesCheck.Check", "internal/checks.orphanedRuleSetComments")
+	defer c16ProbesWithoutOffset(c)
 	p := c.P
 	c.Rule("C16-R1", "missing-series problems are dominated by an empty instant probe of the unstripped selector", 5)
 	c.Rule("C16-R2", "API error discipline in promql_series.go", 20)
@@ -402,21 +404,37 @@ func c16FallbackScope(c *Ctx) {
 	if fi == nil {
 		return
 	}
-	info := fi.Pkg.TypesInfo
 	bad := ""
-	ast.Inspect(fi.Decl.Body, func(n ast.Node) bool {
-		switch x := n.(type) {
-		case *ast.SelectorExpr:
-			if fieldSel(info, x, "internal/parser/utils.Source", "Joins") || fieldSel(info, x, "internal/parser/utils.Source", "Unless") {
-				bad = x.Sel.Name
-			}
-		case *ast.CallExpr:
-			if isCallTo(info, x, "internal/parser/utils.Source.WalkSources") {
-				bad = "WalkSources"
-			}
+	// the function itself and every module function it calls (helpers on Source included)
+	seen := map[*FuncInfo]bool{}
+	work := []*FuncInfo{fi}
+	for len(work) > 0 {
+		cur := work[len(work)-1]
+		work = work[:len(work)-1]
+		if seen[cur] || cur.Decl.Body == nil {
+			continue
 		}
-		return true
-	})
+		seen[cur] = true
+		info := cur.Pkg.TypesInfo
+		ast.Inspect(cur.Decl.Body, func(n ast.Node) bool {
+			switch x := n.(type) {
+			case *ast.SelectorExpr:
+				if fieldSel(info, x, "internal/parser/utils.Source", "Joins") || fieldSel(info, x, "internal/parser/utils.Source", "Unless") {
+					bad = x.Sel.Name + " in " + cur.Obj.Name()
+				}
+			case *ast.CallExpr:
+				if isCallTo(info, x, "internal/parser/utils.Source.WalkSources") && bad == "" {
+					bad = "WalkSources in " + cur.Obj.Name()
+				}
+				if fn := Callee(info, x); fn != nil {
+					if cf := c.P.FuncOf(fn); cf != nil {
+						work = append(work, cf)
+					}
+				}
+			}
+			return true
+		})
+	}
 	c.Check(bad == "", "C16-R3", "sourceHasFallback:looks at the result branches only", fi.Decl.Pos(), "no descent into joins / unless",
 		"the main-selector exemption descends into nested sources ("+bad+"): a fallback on the join side (`m * on() group_left() (w or vector(1))`) exempts `m` itself from the probe, so a never-present `m` is not reported")
 }
@@ -477,4 +495,40 @@ func c16MatcherOnOwnLabel(c *Ctx) {
 		})
 	}
 	c.Check(n >= 1, "C16-R3", "matcher applications on label values enumerated", token.NoPos, itoa(n), "none found")
+}
+
+// c16ProbesWithoutOffset: every selector getNonFallbackSelectors hands to the
+// probes went through selectorWithoutOffset. `count(foo offset 1d)` asks about
+// yesterday; a metric that exists now but did not a day ago would be reported
+// as missing while an instant query for the selector returns series.
+func c16ProbesWithoutOffset(c *Ctx) {
+	gs := c.MustFunc("C16-R1", "internal/checks.getNonFallbackSelectors")
+	if gs == nil {
+		return
+	}
+	info := gs.Pkg.TypesInfo
+	sig := gs.Obj.Type().(*types.Signature)
+	if sig.Results().Len() != 1 {
+		return
+	}
+	res := sig.Results().At(0)
+	n := 0
+	ast.Inspect(gs.Decl.Body, func(nd ast.Node) bool {
+		call, ok := nd.(*ast.CallExpr)
+		if !ok || exprStr(call.Fun) != "append" || len(call.Args) < 2 {
+			return true
+		}
+		if t := info.TypeOf(call.Args[0]); t == nil || !types.Identical(t, res.Type()) {
+			return true
+		}
+		for _, a := range call.Args[1:] {
+			n++
+			inner, isCall := ast.Unparen(a).(*ast.CallExpr)
+			ok := isCall && isCallTo(info, inner, "internal/checks.selectorWithoutOffset")
+			c.Check(ok, "C16-R1", "getNonFallbackSelectors:probe selector is offset-free", a.Pos(), "selectorWithoutOffset(…)",
+				"a selector is handed to the probes as `"+roleStr(info, a)+"`, not through selectorWithoutOffset: with `foo offset 1d` pint counts yesterday's series and reports the metric as missing although an instant query for it returns series now")
+		}
+		return true
+	})
+	c.Check(n >= 3, "C16-R1", "getNonFallbackSelectors:selector append sites enumerated", gs.Decl.Pos(), itoa(n), "fewer than confirmed ("+itoa(n)+")")
 }
